@@ -279,16 +279,88 @@ type replay struct {
 	raw      map[string]reflect.Value // what the MCalls() accessors returned in the last observation
 	retained []kept                   // MCalls() results kept (the slices themselves) to be re-inspected later
 	prevLogs map[string][][][]int
+	ent    entry
+	mcache map[string]reflect.Value
 	by     *replay // bystander: a second instance of the same mock type, called once per method up front
 }
 
-func (r *replay) method(name string) (reflect.Value, bool) {
-	m := r.mock.MethodByName(name)
-	return m, m.IsValid()
+// entry: how to reach one generated mock.  names = the concrete names of the abstract methods A and B; shim (only for
+// in-package mocks, whose methods may be unexported) = method expressions generated next to the mock.
+type entry struct {
+	mk    func() interface{}
+	names [2]string
+	shim  map[string]interface{}
+}
+
+// concrete name of abstract method m ("A"/"B")
+func (r *replay) mname(m string) string {
+	if m == "B" {
+		return r.ent.names[1]
+	}
+	return r.ent.names[0]
+}
+
+// fname: the ACTUAL name of the struct field holding the func for abstract method m
+func (r *replay) fname(m string) string { return r.mname(m) + "Func" }
+
+// funcField returns the (settable) MFunc field of abstract method m, exported or not
+func (r *replay) funcField(m string) reflect.Value {
+	f := r.mock.Elem().FieldByName(r.fname(m))
+	if f.IsValid() && !f.CanSet() && f.CanAddr() {
+		f = reflect.NewAt(f.Type(), unsafe.Pointer(f.UnsafeAddr())).Elem()
+	}
+	return f
+}
+
+// method resolves a role -- "A", "B", "ACalls", "BCalls", "ResetACalls", "ResetBCalls", "ResetCalls" -- to a callable
+// bound to this mock instance.
+func (r *replay) method(role string) (reflect.Value, bool) {
+	if v, ok := r.mcache[role]; ok {
+		return v, v.IsValid()
+	}
+	if r.mcache == nil {
+		r.mcache = map[string]reflect.Value{}
+	}
+	var v reflect.Value
+	if r.ent.shim != nil {
+		if f, ok := r.ent.shim[role]; ok {
+			fn := reflect.ValueOf(f)
+			ft := fn.Type()
+			ins := make([]reflect.Type, 0, ft.NumIn())
+			for i := 1; i < ft.NumIn(); i++ {
+				ins = append(ins, ft.In(i))
+			}
+			outs := make([]reflect.Type, 0, ft.NumOut())
+			for i := 0; i < ft.NumOut(); i++ {
+				outs = append(outs, ft.Out(i))
+			}
+			recv := r.mock
+			v = reflect.MakeFunc(reflect.FuncOf(ins, outs, ft.IsVariadic()), func(in []reflect.Value) []reflect.Value {
+				args := append([]reflect.Value{recv}, in...)
+				if ft.IsVariadic() {
+					return fn.CallSlice(args)
+				}
+				return fn.Call(args)
+			})
+		}
+	} else {
+		name := role
+		switch {
+		case role == "A" || role == "B":
+			name = r.mname(role)
+		case role == "ACalls" || role == "BCalls":
+			name = r.mname(role[:1]) + "Calls"
+		case role == "ResetACalls" || role == "ResetBCalls":
+			name = "Reset" + r.mname(role[5:6]) + "Calls"
+		}
+		v = r.mock.MethodByName(name)
+	}
+	r.mcache[role] = v
+	return v, v.IsValid()
 }
 
 func (r *replay) makeFunc(m, f string) reflect.Value {
-	fld := r.mock.Elem().FieldByName(m + "Func")
+	fld := r.funcField(m)
 	ft := fld.Type()
 	nres := ft.NumOut()
 	return reflect.MakeFunc(ft, func(in []reflect.Value) []reflect.Value {
@@ -318,9 +390,9 @@ func (r *replay) makeFunc(m, f string) reflect.Value {
 }
 
 func (r *replay) setFunc(m, f string) {
-	fld := r.mock.Elem().FieldByName(m + "Func")
+	fld := r.funcField(m)
 	if !fld.IsValid() || fld.Kind() != reflect.Func {
-		r.broken = "no field " + m + "Func"
+		r.broken = "no field " + r.fname(m)
 		return
 	}
 	if f == "nil" {
@@ -361,7 +433,8 @@ func (r *replay) call(m string, args [][]int) (rep Reply) {
 			rep.Kind = "panic"
 			rep.Res = []int{}
 			if _, isFP := p.(fpPanic); !isFP {
-				rep.Names = strings.Contains(fmt.Sprint(p), m+"Func")
+				// "a message naming MFunc": the actual name of the field that holds this method's function
+				rep.Names = strings.Contains(fmt.Sprint(p), r.fname(m))
 			}
 		}
 	}()
@@ -411,7 +484,7 @@ func (r *replay) observe(e *Event) {
 			r.broken = "no accessor " + m + "Calls()"
 		}
 		e.Logs[m] = recs
-		fld := r.mock.Elem().FieldByName(m + "Func")
+		fld := r.funcField(m)
 		e.Fnil[m] = !fld.IsValid() || fld.Kind() != reflect.Func || fld.IsNil()
 	}
 }
@@ -640,14 +713,15 @@ func main() {
 							continue
 						}
 						key := pkg + "/" + cls
-						mk, ok := registry[key]
+						ent, ok := registry[key]
+						mk := ent.mk
 						if !ok {
 							missing.Store(key, true)
 							continue
 						}
 						id := atomic.AddInt64(&replays, 1)
-						r := &replay{mock: reflect.ValueOf(mk()), c: c, prevLogs: map[string][][][]int{"A": {}, "B": {}}}
-						r.by = &replay{mock: reflect.ValueOf(mk()), c: c}
+						r := &replay{mock: reflect.ValueOf(mk()), c: c, ent: ent, prevLogs: map[string][][][]int{"A": {}, "B": {}}}
+						r.by = &replay{mock: reflect.ValueOf(mk()), c: c, ent: ent}
 						for _, m := range methods {
 							r.by.setFunc(m, "F1")
 							r.by.call(m, c.ByArgs[m])
